@@ -536,3 +536,41 @@ func TestWitness_C04_TargetsRegisteredWithTable(t *testing.T) {
 		u.NewEntityRel([]ecs.ID{idA, idR}, ecs.RelID(idR, tg))
 	})
 }
+
+// C01/C04: SetRelations rejects a target for a non-relation component and a relation component named
+// twice. Both used to "move" the entity into its own table (the new relation list equalled the old
+// one, so GetTable returned the entity's own table): the entity's index entry then pointed behind the
+// table's length - the entity was lost and later operations corrupted its neighbours.
+func TestWitness_C04_SetRelationsIntoOwnTable(t *testing.T) {
+	w := ecs.NewWorld(2, 1)
+	idA := ecs.ComponentID[compA](w)
+	idR := ecs.ComponentID[rel1](w)
+	u := w.Unsafe()
+	t0, t1 := w.NewEntity(), w.NewEntity()
+	e := u.NewEntityRel([]ecs.ID{idA, idR}, ecs.RelID(idR, t0))
+	*(*compA)(u.Get(e, idA)) = compA{V: 42}
+	mustPanic(t, "SetRelations with a target for a non-relation component", func() {
+		u.SetRelations(e, ecs.RelID(idA, t1))
+	})
+	mustPanic(t, "SetRelations naming a relation component twice", func() {
+		u.SetRelations(e, ecs.RelID(idR, t1), ecs.RelID(idR, t0))
+	})
+	if u.GetRelation(e, idR) != t0 || (*compA)(u.Get(e, idA)).V != 42 {
+		t.Fatal("rejected SetRelations changed the entity")
+	}
+	// the entity is still where queries find it, exactly once
+	n := 0
+	q := ecs.NewFilter1[compA](w).Query()
+	for q.Next() {
+		if q.Entity() == e {
+			n++
+		}
+	}
+	if n != 1 {
+		t.Fatalf("entity listed %d times", n)
+	}
+	u.SetRelations(e, ecs.RelID(idR, t1)) // a valid call still works
+	if u.GetRelation(e, idR) != t1 {
+		t.Fatal("valid SetRelations did not change the target")
+	}
+}
